@@ -650,7 +650,8 @@ def runCb (ee : EE) : Nat → Cb → NS → NS
       | none => s.raise "EvalError"
       | some n =>
         let s :=
-          if 0 < n then
+          -- `task_count = int(limit)`: a limit below 1, a fraction as well, stands for no task
+          if 1 ≤ n then
             let cnt := n.floor.toNat
             (List.range cnt).foldl (fun s _ =>
               let (_, s) := genCall f c ctx t1 t2 false s
